@@ -6,6 +6,7 @@ sub-agent changes):
 
   automut.py gen   <outdir>            one-token mutants (operator flips, constant +-1, literal flips, break/continue,
                                        return true/false) of every non-test .go file of /repo -> <outdir>/NNNN.diff
+  automut.py gen2  <outdir>            statement-level mutants (delete a one-line statement; force an if-condition true / false)
   automut.py suite <outdir> <k> <n>    worker k of n: for each mutant, apply it to a private scratch worktree, build,
                                        run the repository's own test suite; appends "NNNN <verdict>" to <outdir>/suite.k.txt
                                        (nobuild | killed | survived)
@@ -109,6 +110,73 @@ def gen(outdir):
     print("generated", n, "mutants in", outdir)
 
 
+def write_mutant(outdir, n, f, src, li, new):
+    line = src[li]
+    mutated = src[:li] + ([new] if new is not None else []) + src[li + 1:]
+    p = os.path.join(outdir, "%04d.diff" % n)
+    tmp = os.path.join(outdir, "tmp.go")
+    open(tmp, "w").write("\n".join(mutated))
+    r = subprocess.run(["git", "diff", "--no-index", "--", os.path.join(REPO, f), tmp], stdout=subprocess.PIPE)
+    d = r.stdout.decode()
+    d = re.sub(r"^diff --git .*$", "diff --git a/%s b/%s" % (f, f), d, count=1, flags=re.M)
+    d = re.sub(r"^--- .*$", "--- a/" + f, d, count=1, flags=re.M)
+    d = re.sub(r"^\+\+\+ .*$", "+++ b/" + f, d, count=1, flags=re.M)
+    open(p, "w").write(d)
+    open(os.path.join(outdir, "%04d.txt" % n), "w").write("%s:%d: %s  =>  %s\n" % (f, li + 1, line.strip(), new.strip() if new is not None else "<deleted>"))
+
+
+def gen2(outdir):
+    """statement-level mutants: delete a one-line statement; force an if-condition to true / false;
+    drop an else-branch's guard; replace a returned expression list's first identifier by its zero value is left
+    to the compiler (nobuild) -- only the two operator families above."""
+    os.makedirs(outdir, exist_ok=True)
+    n = 0
+    for f in FILES:
+        src = open(os.path.join(REPO, f)).read().split("\n")
+        in_block_comment = False
+        depth_func = False
+        for li, line in enumerate(src):
+            s = line.strip()
+            if s.startswith("/*"):
+                in_block_comment = True
+            if in_block_comment:
+                if "*/" in s:
+                    in_block_comment = False
+                continue
+            if line.startswith("func "):
+                depth_func = True
+            if line.startswith("}"):
+                depth_func = False
+            if not depth_func or not line.startswith("\t"):
+                continue
+            if not s or s.startswith("//"):
+                continue
+            m = re.match(r"^(\s*(?:\} else )?if )(.*) \{$", line)
+            if m:
+                head, cond = m.group(1), m.group(2)
+                init = ""
+                if "; " in cond:
+                    i = cond.rfind("; ")
+                    init, cond = cond[:i + 2], cond[i + 2:]
+                for rep in ("true", "false"):
+                    write_mutant(outdir, n, f, src, li, head + init + rep + " {")
+                    n += 1
+                continue
+            if s.endswith("{") or s.startswith("}") or s.startswith("case ") or s.startswith("default:") or s.endswith(":") or s.endswith(","):
+                continue
+            if s.startswith(("var ", "const ", "type ", "func ", "defer ", "go ")) and not s.startswith(("defer ", "go ")):
+                continue
+            if s.endswith("(") or s.startswith((")", "]")):
+                continue
+            write_mutant(outdir, n, f, src, li, None)
+            n += 1
+        try:
+            os.remove(os.path.join(outdir, "tmp.go"))
+        except FileNotFoundError:
+            pass
+    print("generated", n, "mutants in", outdir)
+
+
 def worktree(outdir, k):
     wt = os.path.join(outdir, "wt%d" % k)
     if not os.path.isdir(wt):
@@ -185,6 +253,8 @@ if __name__ == "__main__":
     cmd = sys.argv[1]
     if cmd == "gen":
         gen(sys.argv[2])
+    elif cmd == "gen2":
+        gen2(sys.argv[2])
     elif cmd == "suite":
         suite(sys.argv[2], int(sys.argv[3]), int(sys.argv[4]))
     elif cmd == "checks":
